@@ -125,17 +125,19 @@ theorem search_rep {whole objs ss rs} (h : Rep whole objs ss rs) (n : Nat) (rec 
           | inr h2 => exact himp (h2 c id k toks hc)
       simp [search, hg, htry]
 
-theorem getobjF_objstm {whole objs ss} (h : Rep whole objs ss whole) (f n : Nat) {id k toks}
+theorem getobjF_objstm {whole objs ss} (h : Rep whole objs ss whole) (f : Nat) (ip : List Nat) (n : Nat) {id k toks}
     (hv : resolve whole n = some (.objstm id k toks)) :
-    getobjF objs ss (f + 1) n = .ok (.objstm id k toks) := by
-  have := search_rep h n (getobjF objs ss f) (Or.inl ⟨id, k, toks, hv⟩)
+    getobjF objs ss (f + 1) ip n = .ok (.objstm id k toks) := by
+  have := search_rep h n (fun c => if ip.contains c then .error .syntax else getobjF objs ss f (c :: ip) c)
+    (Or.inl ⟨id, k, toks, hv⟩)
   simp only [getobjF, this, specGetobj, hv]
 
 theorem getobjF_spec {whole objs ss} (h : Rep whole objs ss whole) (f n : Nat) :
-    getobjF objs ss (f + 2) n = specGetobj whole n := by
-  have := search_rep h n (getobjF objs ss (f + 1))
-    (Or.inr (fun c id k toks hc => getobjF_objstm h f c hc))
-  simpa [getobjF] using this
+    getobjF objs ss (f + 2) [] n = specGetobj whole n := by
+  have := search_rep h n (fun c => if ([] : List Nat).contains c then .error .syntax else getobjF objs ss (f + 1) [c] c)
+    (Or.inr (fun c id k toks hc => by simpa using getobjF_objstm h f [c] c hc))
+  rw [getobjF]
+  exact this
 
 /-! ### Soundness of the executable checker `repOK` -/
 
@@ -334,9 +336,10 @@ theorem searchC_rep {whole objs ss rs} (h : Rep whole objs ss rs) (n : Nat)
       subst h1
       simp [searchC, hg, ht, h2]
 
-theorem getobjC_objstm {whole objs ss} (h : Rep whole objs ss whole) (f : Nat) (c : Cache) (n : Nat)
+theorem getobjC_objstm {whole objs ss} (h : Rep whole objs ss whole) (f : Nat) (ip : List Nat) (c : Cache) (n : Nat)
     (hc : CacheOK whole c) {id k toks} (hv : resolve whole n = some (.objstm id k toks)) :
-    (getobjC objs ss (f + 1) c n).1 = .ok (.objstm id k toks) ∧ CacheOK whole (getobjC objs ss (f + 1) c n).2 := by
+    (getobjC objs ss (f + 1) ip c n).1 = .ok (.objstm id k toks) ∧
+      CacheOK whole (getobjC objs ss (f + 1) ip c n).2 := by
   have hspec : specGetobj whole n = .ok (.objstm id k toks) := by simp [specGetobj, hv]
   unfold getobjC
   cases hl : lookupNat c n with
@@ -347,8 +350,11 @@ theorem getobjC_objstm {whole objs ss} (h : Rep whole objs ss whole) (f : Nat) (
     subst this
     exact ⟨rfl, hc⟩
   | none =>
-    obtain ⟨h1, h2⟩ := searchC_rep h n (getobjC objs ss f) c hc (Or.inl ⟨id, k, toks, hv⟩)
-    rcases hs : searchC objs (getobjC objs ss f) n ss c with ⟨res, c'⟩
+    obtain ⟨h1, h2⟩ := searchC_rep h n
+      (fun c' s => if ip.contains s then (.error .syntax, c') else getobjC objs ss f (s :: ip) c' s) c hc
+      (Or.inl ⟨id, k, toks, hv⟩)
+    rcases hs : searchC objs
+      (fun c' s => if ip.contains s then (.error .syntax, c') else getobjC objs ss f (s :: ip) c' s) n ss c with ⟨res, c'⟩
     rw [hs] at h1 h2
     simp only at h1 h2
     rw [hspec] at h1
@@ -357,14 +363,16 @@ theorem getobjC_objstm {whole objs ss} (h : Rep whole objs ss whole) (f : Nat) (
 
 theorem getobjC_spec {whole objs ss} (h : Rep whole objs ss whole) (f : Nat) (c : Cache) (n : Nat)
     (hc : CacheOK whole c) :
-    (getobjC objs ss (f + 2) c n).1 = specGetobj whole n ∧ CacheOK whole (getobjC objs ss (f + 2) c n).2 := by
+    (getobjC objs ss (f + 2) [] c n).1 = specGetobj whole n ∧ CacheOK whole (getobjC objs ss (f + 2) [] c n).2 := by
   unfold getobjC
   cases hl : lookupNat c n with
   | some v => exact ⟨(hc n v hl).symm, hc⟩
   | none =>
-    obtain ⟨h1, h2⟩ := searchC_rep h n (getobjC objs ss (f + 1)) c hc
-      (Or.inr (fun c0 cont id k toks hc0 hcont => getobjC_objstm h f c0 cont hc0 hcont))
-    rcases hs : searchC objs (getobjC objs ss (f + 1)) n ss c with ⟨res, c'⟩
+    obtain ⟨h1, h2⟩ := searchC_rep h n
+      (fun c' s => if ([] : List Nat).contains s then (.error .syntax, c') else getobjC objs ss (f + 1) [s] c' s) c hc
+      (Or.inr (fun c0 cont id k toks hc0 hcont => by simpa using getobjC_objstm h f [cont] c0 cont hc0 hcont))
+    rcases hs : searchC objs
+      (fun c' s => if ([] : List Nat).contains s then (.error .syntax, c') else getobjC objs ss (f + 1) [s] c' s) n ss c with ⟨res, c'⟩
     rw [hs] at h1 h2
     simp only at h1 h2
     cases res with
